@@ -53,7 +53,30 @@ def must_contrib(body, acc, pred, ret_blocks=None):
             hits_all.append(b)
             if rets and all(body.dominates(b, r) for r in rets):
                 hits_must.append(b)
+            elif rets and body.in_cycle(b) and whole_array_loop(body, b, sl, rets):
+                hits_must.append(b)
     return hits_must, hits_all
+
+
+def whole_array_loop(body, cb, sl, rets):
+    """Sibling of the unrolled form: the contribution at cb sits in a loop over an array literal
+    `for x in [a, b, c] { acc.extend(x) }` - every element is appended when the loop runs over the whole array
+    (no filtering adaptor), the append post-dominates the loop's Some edge and the loop head dominates the returns."""
+    arr = [d for d in sl.aggs if d["stmt"]["rv"].get("array") or d["stmt"]["rv"].get("akind") == "Array" or str(d["stmt"]["rv"].get("adt", "")) == "[array]"]
+    if not arr or not arr[0]["stmt"]["rv"].get("ops"):
+        return False
+    nexts = [(nb, nt) for nb, nt in sl.find_calls(r"Iterator::next$") if body.in_cycle(nb) and body.dominates(nb, cb)]
+    if not nexts:
+        return False
+    nb, nt = max(nexts, key=lambda x: sum(1 for y in nexts if body.dominates(y[0], x[0])))
+    its = body.slice_op(nt["args"][0])
+    if its.has_call(r"Iterator::(filter|filter_map|skip|take|step_by|skip_while|take_while|rev|chain|zip)$|slice::<impl \[T\]>::(split\w*|chunks\w*|windows|get|first|last)$"):
+        return False
+    if not any(d in its.aggs for d in arr):
+        return False
+    st = body.term(nt["target"])
+    some = [bb for v, bb in st["targets"] if v == 1] if st["k"] == "switch" else []
+    return bool(some) and body.postdominates(cb, some[0]) and all(body.dominates(nb, r) for r in rets)
 
 
 def callee_is(t, pat):
@@ -194,6 +217,9 @@ def slice_from_param_only(body, sl, plocal):
 # ------------------------------------------------------------------------------------------------
 # K9 accumulator ("collect all complaints, then fail") analysis
 # ------------------------------------------------------------------------------------------------
+IS_EMPTY = r"Vec::<T, A>::is_empty$|slice::<impl \[T\]>::is_empty$"  # the list itself or its slice view (a helper taking &[..])
+
+
 def accumulator_facts(body, acc):
     """Facts about a Vec local used as complaint accumulator.
     Returns dict(created_empty, pushes=[blocks], bad_ops=[(block, callee)], tests=[(block, term)])."""
@@ -209,7 +235,7 @@ def accumulator_facts(body, acc):
             else:
                 bad.append((d["block"], c))
     tests = []
-    for bi, t in body.calls(r"Vec::<T, A>::is_empty$"):
+    for bi, t in body.calls(IS_EMPTY):
         sl = body.slice_op(t["args"][0])
         if acc in sl.locals:
             tests.append((bi, t))
@@ -219,7 +245,7 @@ def accumulator_facts(body, acc):
 def ok_guarded_by_empty(body, acc, ok_block):
     """Is ok_block control-dependent on `acc.is_empty() == true`?"""
     for a, s, c, truth in guard_conditions(body, ok_block):
-        if c["kind"] == "call" and re.search(r"Vec::<T, A>::is_empty$", c["callee"]):
+        if c["kind"] == "call" and re.search(IS_EMPTY, c["callee"]):
             sl = body.slice_op(c["term"]["args"][0])
             if acc in sl.locals and truth is True:
                 return True
@@ -404,12 +430,19 @@ def root_local(body, operand, depth=12):
         if body.names.get(l) and not body.locals[l].get("inlined_param"):
             return l
         ds = [d for d in body.defs().get(l, []) if d["kind"] != "mutcall"]
-        if len(ds) != 1 or ds[0]["kind"] != "assign" or ds[0]["stmt"]["rv"]["k"] != "use":
+        if not ds or any(d["kind"] != "assign" or d["stmt"]["rv"]["k"] != "use" for d in ds):
             return l
-        p2 = op_place(ds[0]["stmt"]["rv"]["op"])
-        if p2 is None or p2["proj"]:
+        srcs = [op_place(d["stmt"]["rv"]["op"]) for d in ds]
+        if any(p2 is None or p2["proj"] for p2 in srcs):
             return l
-        l = p2["local"]
+        if len(ds) > 1:
+            # the shared parameter of a helper entered from several call sites: every site passes something; follow
+            # only if it is the same thing everywhere (after following each)
+            roots = {root_local(body, {"copy": {"local": p2["local"], "proj": []}}, depth) for p2 in srcs}
+            if len(roots) != 1 or not body.locals[l].get("inlined_param"):
+                return l
+            return roots.pop()
+        l = srcs[0]["local"]
     return l
 
 
